@@ -12,7 +12,7 @@
 (* and an index into the chunk fetched by the previous step fetches        *)
 (* nothing.                                                                *)
 (***************************************************************************)
-EXTENDS TdmsData, IOUtils
+EXTENDS TdmsDataOps, IOUtils
 
 CONSTANT Verbose
 
@@ -66,12 +66,12 @@ CachedAfter(tr, st, prevChunk) ==
   ELSE LET L == TotalLen(tr.segs)  i == IF st.i < 0 THEN L + st.i ELSE st.i IN
        IF i < 0 \/ i >= L THEN prevChunk ELSE CHOOSE c \in Overlapping(tr.segs, i, i + 1) : TRUE
 
-TInit == tid \in DOMAIN Traces /\ l = 1 /\ cache = <<>> /\ shape = [segs |-> <<>>, il |-> FALSE] /\ req = NoReq
+TInit == tid \in DOMAIN Traces /\ l = 1 /\ cache = <<>>
 TStep == /\ l <= Len(Tr.steps)
          /\ StepOK(Tr, Tr.steps[l], cache)
          /\ cache' = CachedAfter(Tr, Tr.steps[l], cache)          \* the channel's one-chunk cache
-         /\ l' = l + 1 /\ UNCHANGED <<tid, shape, req>>
-TSpec == TInit /\ [][TStep]_<<tvars, vars>>
+         /\ l' = l + 1 /\ UNCHANGED tid
+TSpec == TInit /\ [][TStep]_tvars
 
 \* every trace consumed to its end prints ACCEPT; ids not printed are rejected (the harness re-runs those
 \* with Verbose to learn the first step that does not match)
